@@ -466,3 +466,251 @@ def enumerate_histories(alphabet, depth):
             prefix.pop()
 
     yield from rec([])
+
+
+# ----------------------------------------------------------------------------- sharded execution
+
+
+def _run_shard(args):
+    """Worker process: run a shard of histories on the real code and on the model."""
+    kind, payload, prop_alpha = args
+    from . import qsim  # imported here: gevent state is per process
+
+    drv = Driver("qs")
+    hist = Counter()
+    H, R, O = [], [], []
+    if kind == "enum":
+        for lines in payload:
+            h, r, o = run_history(qsim, list(lines))
+            H.append(h), R.append(r), O.append(o)
+    else:
+        seed, n, lo, hi = payload
+        rng = random.Random(seed)
+        for _ in range(n):
+            g = Gen(rng, prop_alpha)
+            h, r, o = run_history(qsim, g, rng.randint(lo, hi))
+            H.append(h), R.append(r), O.append(o)
+    M = model_replies(drv, H)
+    diffs, viols = [], []
+    nontrivial = set()
+    nops = 0
+    for h, r, m, o in zip(H, R, M, O):
+        nops += len(h)
+        for l in h:
+            hist[l.split()[0]] += 1
+        d = compare(h, r, m)
+        if d and len(diffs) < 3:
+            diffs.append({"history": h, **d})
+        elif d:
+            diffs.append(None)
+        for p, what in o.viol[:2]:
+            if len(viols) < 20:
+                viols.append({"prop": p, "what": what, "history": h})
+        outs = " ".join(x.split(" | ")[0] for x in r)
+        if "pulled:" in outs:
+            nontrivial.add(tuple(h))
+            hist["histories-with-handout"] += 1
+        if "blocked:" in outs:
+            hist["histories-with-blocked"] += 1
+        if "keyerror" in outs:
+            hist["histories-with-keyerror"] += 1
+        if "busy" in outs:
+            hist["histories-with-busy"] += 1
+    sample = [{"ops": H[i], "replies": [x.split(' | ')[0] for x in R[i]]} for i in (0, len(H) // 2) if H] if H else []
+    return {
+        "histories": len(H),
+        "ops": nops,
+        "hist": dict(hist),
+        "ndiffs": len(diffs),
+        "diffs": [d for d in diffs if d],
+        "viols": viols,
+        "nontrivial": len(nontrivial),
+        "sample": sample[:2],
+    }
+
+
+def run_sharded(jobs, nproc=16):
+    import multiprocessing as mp
+
+    if not jobs:
+        return []
+    ctx = mp.get_context("spawn")
+    with ctx.Pool(min(nproc, len(jobs))) as pool:
+        return pool.map(_run_shard, jobs)
+
+
+def minimise_violation(prop, history):
+    """Shrink a history that makes the oracle report a violation of `prop`."""
+    from . import qsim
+
+    def pred(lines):
+        try:
+            _, _, o = run_history(qsim, list(lines))
+        except Exception:
+            return False
+        return any(p == prop for p, _ in o.viol)
+
+    if not pred(history):
+        return history, None
+    small = shrink(qsim, history, pred)
+    _, _, o = run_history(qsim, list(small))
+    what = next(w for p, w in o.viol if p == prop)
+    return small, what
+
+
+def minimise_diff(history):
+    from . import qsim
+
+    drv = Driver("qs")
+
+    def pred(lines):
+        try:
+            h, r, _ = run_history(qsim, list(lines))
+            m = model_replies(drv, [h])[0]
+        except Exception:
+            return False
+        return compare(h, r, m) is not None
+
+    if not pred(history):
+        return history, None
+    small = shrink(qsim, history, pred)
+    h, r, _ = run_history(qsim, list(small))
+    m = model_replies(drv, [h])[0]
+    return small, compare(h, r, m)
+
+
+QS_TRUSTED = [
+    "Lean 4 kernel; axioms propext, Quot.sound, Classical.choice only (audited per theorem on this run)",
+    "hand-written model lean/MwVerif/Model/Qs.lean of qs/jobs.py (job, workq), qs/qserve.py (QPlugin, pickling) and of the gevent behaviour they rely on "
+    "(FIFO hub callbacks; AsyncResult/Event notification; Greenlet.kill) — tied to /repo by the correspondence run only",
+    "heap internals abstracted: finished jobs lingering inside a heap are unobservable and dropped by the model's preen",
+    "harness/qsim.py: scripted gevent (hub.loop proxy withholding notifier/kill callbacks), fake clock, scripted random.choice; harness/qs_common.py: generator, oracles",
+    "not modelled: rpc_qdrop/waitjobs' drop branch, rpc_qprefixmatch, sockets/JSON framing of rpcserver, payloads other than small integers",
+]
+
+
+def qs_check(chk, prop, alpha, prop_modules, claims):
+    """The C16/C17/C18 check body. `claims` = set of oracle tags that belong to this property."""
+    import json as _json
+    import os
+
+    tier = chk.tier
+    res = common.lean_prove(prop_modules, tier)
+    chk.proof_coverage(res, QS_TRUSTED)
+    nproc = min(16, os.cpu_count() or 4)
+
+    if chk.replay:
+        obj = _json.load(open(chk.replay))
+        if "history" in obj:
+            from . import qsim
+
+            h, r, o = run_history(qsim, obj["history"])
+            m = model_replies(Driver("qs"), [h])[0]
+            for l, a, b in zip(h, r, m):
+                print(">", l, "\n   impl :", a, "\n   model:", b)
+            mine = [w for p, w in o.viol if p in claims]
+            chk.coverage.update({"evaluations": 1, "distinct_nontrivial": 1, "samples": [h], "explanation": "replay"})
+            if mine:
+                chk.violation(mine[0], {"kind": "impl-oracle", "history": h}, sig={"kind": "oracle", "what": mine[0][:40]})
+            return
+
+    jobs = []
+    # 1. corpus (past failures, hand-picked regressions) first
+    corpus = []
+    cdir = common.CORPUS / "qs"
+    if cdir.exists():
+        for f in sorted(cdir.glob("*.json")):
+            corpus.append(_json.load(open(f))["history"])
+    if corpus:
+        jobs.append(("enum", corpus, alpha))
+    # 2. exhaustive small histories over the property's bounded alphabet
+    depth = 5 if tier == "thorough" else 4
+    allh = [h for h in enumerate_histories(alpha, depth) if len(h) == depth]
+    chunk = (len(allh) + nproc * 4 - 1) // (nproc * 4)
+    for i in range(0, len(allh), chunk):
+        jobs.append(("enum", allh[i : i + chunk], alpha))
+    n_enum = len(allh)
+    # 3. seeded random longer histories
+    nrand = 60000 if tier == "thorough" else 6000
+    per = nrand // (nproc * 2)
+    for i in range(nproc * 2):
+        jobs.append(("rand", (chk.seed * 1000003 + i, per, 8, 200 if tier == "thorough" else 60), alpha))
+    results = run_sharded(jobs, nproc)
+
+    tot = Counter()
+    hist = Counter()
+    diffs, viols, samples = [], [], []
+    for r in results:
+        tot["histories"] += r["histories"]
+        tot["ops"] += r["ops"]
+        tot["ndiffs"] += r["ndiffs"]
+        tot["nontrivial"] += r["nontrivial"]
+        hist.update(r["hist"])
+        diffs += r["diffs"]
+        viols += r["viols"]
+        if len(samples) < 3:
+            samples += r["sample"][:1]
+    mine = [v for v in viols if v["prop"] in claims]
+    other = [v for v in viols if v["prop"] not in claims]
+    chk.coverage.update(
+        {
+            "evaluations": tot["histories"],
+            "distinct_nontrivial": tot["nontrivial"],
+            "rule": f"histories = corpus + ALL canonical histories of exactly {depth} ops over the bounded alphabet "
+            f"(2 channels, 3 workers, job ids #1,#2,n1; symmetry-reduced; {n_enum} of them) + {nrand} seeded random histories "
+            "(state-aware generator, 8..60/200 ops). non-trivial = distinct histories in which at least one job was handed to a worker",
+            "exhaustive": True,
+            "traces_validated_against_impl": tot["histories"],
+            "operations_executed": tot["ops"],
+            "correspondence_differences": tot["ndiffs"],
+            "oracle_violations_this_property": len(mine),
+            "oracle_violations_other_properties": len(other),
+            "histogram": dict(hist),
+            "samples": samples,
+        }
+    )
+    chk.assumptions += [
+        "cooperative scheduling: code between two gevent yields is atomic (as the property states)",
+        "a connection sends one request at a time (rpcserver reads the next line only after replying)",
+        "explicit job ids are strings; default ids are the serial numbers",
+    ]
+    reported = set()
+    for v in mine:
+        key = v["what"].split(" serial")[0][:50]
+        if key in reported:
+            continue
+        reported.add(key)
+        small, what = minimise_violation(v["prop"], v["history"])
+        chk.violation(what or v["what"], {"kind": "impl-oracle", "history": small, "original_length": len(v["history"])},
+                      sig={"kind": "oracle", "what": (what or v["what"])[:40]})
+        if len(reported) >= 3:
+            break
+    if mine:
+        return
+    broken = []
+    if not res.ok:
+        broken.append({"kind": "lean", "failed": res.failed_targets, "bad_axioms": res.bad_axioms,
+                       "forbidden": res.forbidden_hits, "log_tail": res.log[-1500:]})
+    if tot["ndiffs"]:
+        small, d = minimise_diff(diffs[0]["history"])
+        broken.append({"kind": "correspondence", "count": tot["ndiffs"], "history": small, "first_difference": d})
+    if broken:
+        # extended search: 10x the random budget, oracle only
+        ext = [("rand", (chk.seed * 7919 + 100 + i, per * 5, 8, 120), alpha) for i in range(nproc * 2)]
+        found = None
+        for r in run_sharded(ext, nproc):
+            for v in r["viols"]:
+                if v["prop"] in claims:
+                    found = v
+                    break
+            if found:
+                break
+        if found:
+            small, what = minimise_violation(found["prop"], found["history"])
+            chk.violation(what or found["what"], {"kind": "impl-oracle", "history": small, "broken": broken},
+                          sig={"kind": "oracle", "what": (what or found["what"])[:40]})
+        else:
+            chk.violation(
+                f"{prop} is no longer shown to hold: " + ", ".join(b["kind"] for b in broken)
+                + " broke; the implementation oracle found no failing history in the extended search",
+                {"broken": broken, "theorems": prop_modules}, no_input=True)
